@@ -315,6 +315,15 @@ class EngineBase:
             lst = st.obj(fr).get("rows")
             st = st.heap_set(lst, "items", (row,) + st.obj(lst).get("items"))
             return st, fr, list(invs) + list(inv2)
+        if k == "rows_exact":
+            items = []
+            invs = []
+            for i in range(sort.arg):
+                st, r, inv = self.make_msg(st, "RdfStreamRow", f"{name}{i}")
+                items.append(r)
+                invs += list(inv)
+            st, lr = self.alloc(st, "list", None, items=tuple(items))
+            return st, lr, invs
         if k == "rows":
             seg = Seg(V.fresh_of_sort(name, V.SegSort), name)
             st, r = self.alloc(st, "list", None, items=(seg,))
@@ -407,6 +416,8 @@ class EngineBase:
 
     def havoc_obj(self, st: State, r: Ref, name: str) -> State:
         o = st.obj(r)
+        if o.kind == "msg":
+            return self.protomodel.havoc(self, st, r, name)
         if o.kind == "list":
             seg = Seg(V.fresh_of_sort(name, V.SegSort), name)
             st = st.assume(V.seg_len(seg.const) >= 0)
